@@ -3,6 +3,7 @@
 -/
 import Driver.FwRun
 import MbVerif.Spec.C04
+import MbVerif.Spec.C06
 import MbVerif.Spec.C01
 import MbVerif.Spec.C02
 import MbVerif.Spec.C03
@@ -16,7 +17,7 @@ open Mb
 /-- all framework-level monitors: (property id, failure description) -/
 def fwMonitors (t : FwTrace) : List (String × Option String) :=
   [ ("C01", C01.monitor t), ("C04", C04.monitor t), ("C02", C02.monitor t), ("C03", C03.monitor t),
-    ("C07", C07.monitor t), ("C08", C08.monitor t), ("C09", C09.monitor t) ]
+    ("C07", C07.monitor t), ("C08", C08.monitor t), ("C09", C09.monitor t), ("C06", C06.fwMonitor t) ]
 
 def hasEv (t : FwTrace) (ev : Nat) : Bool :=
   t.calls.any (fun c => c.log.any (fun e => match e with
